@@ -58,7 +58,7 @@ class NpInt(int):
 
     def _w(self, other, op):
         if isinstance(other, float):
-            return op(int(self), other)
+            return NpF64(op(int(self), float(other)))      # numpy: integer scalar (op) float gives a float64 scalar
         if isinstance(other, NpInt) and other.dtype != self.dtype:
             return op(int(self), int(other))
         return NpInt(_coerce(op(int(self), int(other)), self.dtype), self.dtype)
@@ -81,6 +81,18 @@ class NpInt(int):
 
     def __neg__(self):
         return NpInt(_coerce(-int(self), self.dtype), self.dtype)
+
+    def __truediv__(self, o):
+        return NpF64(_np_div(int(self), o)) if isinstance(o, (int, float)) else NotImplemented
+
+    def __rtruediv__(self, o):
+        return NpF64(_np_div(o, int(self))) if isinstance(o, (int, float)) else NotImplemented
+
+    def __repr__(self):
+        return 'np.%s(%d)' % (self.dtype, int(self))
+
+    def __str__(self):
+        return str(int(self))
 
 
 def _f32(v):
